@@ -24,6 +24,11 @@ SeqOK == IsCirc =>
 OtherOK == (IsCirc /\ Has("other")) =>
     LET tail == SubSeq(Prog, Rec.other.h + 1, Len(Prog)) IN
     \A j \in 1..Len(Rec.other.ins) : Dec(Rec.other.fwd[j]) = Forward(tail, Dec(Rec.other.ins[j]))
+\* ... and its backward pass still undoes its forward pass (C10)
+OtherBackOK == (IsCirc /\ Has("other") /\ "back" \in DOMAIN Rec.other) =>
+    LET tail == SubSeq(Prog, Rec.other.h + 1, Len(Prog)) IN
+    /\ Rec.other.back = Rec.other.ins
+    /\ \A j \in 1..Len(Rec.other.ins) : Dec(Rec.other.bwd[j]) = Backward(tail, Dec(Rec.other.ins[j]))
 \* rank of a state is untouched by unitary circuits
 RankOK == IsCirc =>
     \A p \in 1..Len(Rec.probes) : LET pr == Rec.probes[p] IN
